@@ -19,7 +19,7 @@ RULE = ("each run: generated well-formed input (sweep over root types / command 
 REAL = common.REAL_DECODER
 ASSUMPTIONS = ["a command/response stream may end cleanly after a command as well as after a response (both are message boundaries)",
                "a lone Response decode may report command_code None or the code it was given (relaxation 3)"]
-TIERS = {"quick": {"runs": 80000, "budget": 75}, "thorough": {"runs": 1000000, "budget": 780}}
+TIERS = {"quick": {"runs": 50000, "budget": 75}, "thorough": {"runs": 1000000, "budget": 780}}
 DOMAIN = ("depleted", "superfluous")
 
 
@@ -33,12 +33,25 @@ def cut_points(o, n, rng, k=6):
     return sorted(p for p in pts if 0 <= p < n)
 
 
+def enumerate_all(tier, rng):
+    return tier == "thorough" and rng.random() < 0.5 or rng.random() < 0.01
+
+
 def make_case(i, rng, tier):
     inp = common.gen_input(rng, common.target_for(i, rng))
     o = model.decode(inp["root"], inp["data"], cc=inp["cc"], enc=inp["enc"])
     if not o.ok:
         raise HarnessError("generator produced a malformed input: %s %s" % (inp["label"], o.problem))
     data = inp["data"]
+    if enumerate_all(tier, rng) and 0 < len(data) <= 400:
+        # every crash point 0..len-1 and three suffixes, same scenario
+        vs = []
+        for k in range(len(data)):
+            vs.append(F.fault_trunc(data, o, rng, k=k))
+        for _ in range(3):
+            vs.append(F.fault_append(data, o, rng))
+        vs = [(d, [rec]) for d, rec in (v for v in vs if v)]
+        return common.with_variants(common.mk_case(rng, inp, data, []), vs)
     r = rng.random()
     if r < 0.7 and data:
         pts = cut_points(o, len(data), rng)
@@ -54,7 +67,7 @@ def make_case(i, rng, tier):
     return common.mk_case(rng, inp, data, [rec])
 
 
-def check(case):
+def check_one(case):
     res = Result()
     w = common.run_world(case, res)
     t, data, o = common.main_ref(case, w)
@@ -113,5 +126,14 @@ def check(case):
     return res
 
 
+def check(case):
+    if "variants" in case:
+        return common.check_variants(case, check_one)
+    return check_one(case)
+
+
 def shrink(case):
+    if "variants" in case:
+        yield from common.shrink_variants(case)
+        return
     yield from common.shrink_tasks(case, {"main"})
